@@ -163,10 +163,19 @@ func (u *Universe) msgCase(out *bufio.Writer, ti *TypeInfo, v *Val, o buildOpts)
 	}
 	// reference encoding of the value (validates the Coq ref_encode)
 	refb := "-"
-	if dm, err := u.toDyn(ti, wantQ); err == nil {
+	if ti.S.hasMap(ti.MI) {
+		// protobuf-go always writes both key and value of a map entry, picobuf omits defaults:
+		// both are valid, so reference *bytes* are only compared for map-free types (C06's domain)
+	} else if dm, err := u.toDyn(ti, wantQ); err == nil {
 		if rb, err := (proto.MarshalOptions{Deterministic: true}).Marshal(dm); err == nil {
 			refb = "x" + hex.EncodeToString(sortRecords(u, ti, rb))
 		}
+	}
+	if want.String() != wantQ.String() {
+		refb = "-" // float32 signalling NaN: the reference API quiets it
+	}
+	if ti.S.hasMap(ti.MI) {
+		u.reorderMaps(ti, v, data) // instantiate the model's entry order with the observed one
 	}
 	fmt.Fprintf(out, "msg\t%s\t%s\t%s\tx%s\t%s\t%s\t%s\n", typeRef(ti), ti.Key, v, hex.EncodeToString(data),
 		strings.Join(flags, ","), strings.Join(detail, ";"), refb)
